@@ -109,6 +109,11 @@ def shard(seed, items, tier):
         if ev is None:
             continue
         group = tag.split('@')[0]
+        if rdh.outcap_hit(ev):
+            # a member declaring more than 64 MiB that really decodes that far (-pm1- continues on zero bits): bounded, proportional
+            # work, abandoned by the harness at the cap; nothing further is concluded from this case
+            sh.count('abandoned_at_output_cap_work_proportional_so_far')
+            continue
         if rdh.budget_hit(ev):
             b = [d for k, d in ev if k == 'budget'][0]
             sh.violation('C13-no-return:%s:%s:%s' % (rdh.KIND_NAMES[c.kind], pname, 'truncated' if '@cut' in tag else group),
@@ -150,11 +155,30 @@ def shard(seed, items, tier):
     return sh
 
 
-def cli_part(ctx, exe, items):
+BIG = 64 * MiB
+
+
+def declared_big(ctx, items):
+    """Tags of inputs in which some member declares more than 64 MiB of output (found with a list-only pass of the harness).
+    'lha t/p/x' on such an input may legitimately run for minutes (-pm1- really produces what is declared), so a wall-clock
+    watchdog firing there is INCONCLUSIVE and is counted as such, not reported; listing such an input must still return."""
+    cases = [rdh.RCase(A, [(rdh.OP_WALK, 0)], kind=2, meta=tag) for tag, A, nm in items]
+    res = rdh.run_batch(_EXE, cases, ctx, label='c13sz')
+    big = set()
+    for c in cases:
+        ev = res.get(c.id) or []
+        if any(k == 'next' and d is not None and d['size'] > BIG for k, d in ev):
+            big.add(c.meta)
+    ctx.count('cli_inputs_declaring_more_than_64MiB', len(big))
+    return big
+
+
+def cli_part(ctx, exe, items, big=frozenset()):
     root = os.path.join(build.scratch_root(), 'c13cli')
     os.makedirs(root, exist_ok=True)
 
     hangs = [0]
+    inconc_said = [0]
 
     def one(it):
         i, (tag, A, nm) = it
@@ -168,10 +192,12 @@ def cli_part(ctx, exe, items):
                 if len(A) > 100000 and mode != 'l':
                     continue
                 args, stdin = ([mode, p], b'') if via == 'file' else ([mode, '-'], A)
-                rc, so, se = cli.run_lha(exe, args, root, stdin=stdin, timeout=20)
-                if rc == -999:      # watchdog: inconclusive until it repeats
+                rc, so, se = cli.run_lha(exe, args, root, stdin=stdin, timeout=20 if not (mode != 'l' and tag in big) else 5)
+                if rc == -999 and mode != 'l' and tag in big:
+                    pass            # minutes of legitimate decoding: inconclusive at once, no second attempt
+                elif rc == -999:      # watchdog: inconclusive until it repeats
                     rc, so, se = cli.run_lha(exe, args, root, stdin=stdin, timeout=60)
-                    if rc == -999:
+                    if rc == -999 and not (mode != 'l' and tag in big):
                         hangs[0] += 1
                 out.append((mode, via, rc, len(so)))
         os.unlink(p)
@@ -181,7 +207,13 @@ def cli_part(ctx, exe, items):
             for mode, via, rc, n in out:
                 ctx.count('cli_runs')
                 ctx.cov['evaluations'] += 1
-                if rc == -999:
+                if rc == -999 and mode != 'l' and tag in big:
+                    ctx.count('inconclusive_cli_watchdog_on_input_declaring_more_than_64MiB')
+                    if not inconc_said[0]:
+                        inconc_said[0] = 1
+                        ctx.inconc("'lha %s' on %s declares more than 64 MiB of output and was stopped after 5 s: bounded but long decoding, not judged "
+                                   '(the harness judges the same input up to its 64 MiB output cap)' % (mode, tag))
+                elif rc == -999:
                     ctx.violation('C13-cli-no-return:%s:%s:%s' % (mode, via, tag.split('@')[0]), "'lha %s' on %s via %s did not finish within the watchdog twice"
                                   % (mode, tag, via), A)
     shutil.rmtree(root, ignore_errors=True)
@@ -191,7 +223,7 @@ OUT_CAP = 32 * MiB
 ANSWERS = [b'', b'y', b'n', b'\n', b'\n\n\n', b'zzz\n' * 5, b'y\n', b'n\n', b'a\n', b's\n', b'q', b'\x00\xff\n', b'yes', b' ' * 300, b'y\n' * 3 + b'x']
 
 
-def cli_extract_part(ctx, exe, so, items):
+def cli_extract_part(ctx, exe, so, items, big=frozenset()):
     """Extraction commands return too - in particular at the overwrite prompt, whatever standard input holds (nothing, an
     unfinished line, junk).  Each archive is extracted twice into the same directory as user nobody under the fs guard; the
     second run finds every file in place.  Output goes to files under RLIMIT_FSIZE, so a tool that keeps writing is
@@ -232,8 +264,8 @@ def cli_extract_part(ctx, exe, so, items):
         mode = ('x', 'e', 'xi')[i % 3]
         ans2 = ANSWERS[i % len(ANSWERS)]
         for rnd_no, stdin in ((1, b''), (2, ans2), (3, ANSWERS[(i * 7 + 3) % len(ANSWERS)])):
-            rc, n = launch(root, [mode, 'a.lzh'], stdin, 20)
-            if rc == -999:
+            rc, n = launch(root, [mode, 'a.lzh'], stdin, 20 if tag not in big else 5)
+            if rc == -999 and tag not in big:
                 rc, n = launch(root, [mode, 'a.lzh'], stdin, 60)
             bound = (len(A) // 20 + stdin.count(b'\n') + 3) * (len(A) + 200)
             out.append((mode, rnd_no, stdin, rc, n, bound))
@@ -250,9 +282,13 @@ def cli_extract_part(ctx, exe, so, items):
                     ctx.count('cli_extract_runs_over_existing_files')
                 ctx.cov['evaluations'] += 1
                 base_tag = tag.split('@')[0].split('-')[0]
-                if rc == -999:
+                if rc == -999 and tag in big:
+                    ctx.count('inconclusive_cli_watchdog_on_input_declaring_more_than_64MiB')
+                elif rc == -999:
                     ctx.violation('C13-cli-no-return:%s:run%d:%s' % (mode, min(rnd_no, 2), base_tag), "'lha %s' on %s (run %d into the same directory, stdin %r) did not "
                                   'finish within the watchdog twice' % (mode, tag, rnd_no, stdin[:20]), A)
+                elif rc == -signal.SIGXFSZ and n < OUT_CAP - 65536:
+                    ctx.count('extractions_stopped_by_the_file_size_limit_on_an_extracted_file')     # a big member, not messages
                 elif rc == -signal.SIGXFSZ or n > bound:
                     ctx.violation('C13-cli-unbounded-output:%s:run%d:%s' % (mode, min(rnd_no, 2), base_tag), "'lha %s' on %s (run %d into the same directory, stdin %r) wrote "
                                   '%d bytes of messages (bound %d; stopped at %d)' % (mode, tag, rnd_no, stdin[:20], n, bound, OUT_CAP), A)
@@ -292,12 +328,13 @@ def run(ctx):
     nsh = 16
     core.run_shards(ctx, shard, [(ctx.seed * 19 + i, items[i::nsh], ctx.tier) for i in range(nsh)])
     cli_items = [it for it in items if '@cut' not in it[0]] + [it for it in items if '@cut' in it[0]][::(7 if ctx.tier == 'quick' else 2)]
-    cli_part(ctx, exe_cli, cli_items)
+    big = declared_big(ctx, [it for it in items if '@cut' not in it[0]])
+    cli_part(ctx, exe_cli, cli_items, big)
     so = b.shared('fsmon', 'fsmon.c')
     whole = [it for it in items if it[0].startswith('generated-') and '@cut' not in it[0]]
     xitems = whole * (3 if ctx.tier == 'quick' else 5) + [it for it in items if '@cut' in it[0]][::(11 if ctx.tier == 'quick' else 3)] \
         + [it for it in items if it[0].startswith('mutated-')][:(60 if ctx.tier == 'quick' else 1500)]
-    cli_extract_part(ctx, exe_cli, so, xitems)
+    cli_extract_part(ctx, exe_cli, so, xitems, big)
     ctx.cov['rule'] = ('(input, stream kind, operation) triples: every truncation offset of generated multi-member archives (all methods), extreme '
                        'length declarations, inputs without a header up to and around the 256 KiB scan limit, self-referential and pm1-endless '
                        'streams, mutated and random inputs x 4 stream kinds x {list, read 1 byte each, read to end, check}; distinct by input+kind+'
